@@ -140,6 +140,21 @@ def run_property(REG, prop, tier, seed, t0):
     return finish(REG, prop, tier, seed, t0, reports, sanity, extra, props_mod)
 
 
+def _stable_id(i):
+    import re
+    return re.sub(r"@L\d+", "", i)
+
+
+def _load_baseline(prop):
+    p = os.path.join(HERE, "contracts", "baseline", f"{prop}.json")
+    if os.path.exists(p):
+        try:
+            return json.load(open(p))
+        except Exception:      # noqa
+            return {}
+    return {}
+
+
 def finish(REG, prop, tier, seed, t0, reports, sanity, extra, props_mod):
     from pyvc import locate
     kf = [k for k in known_findings() if k.get("property") == prop]
@@ -170,6 +185,19 @@ def finish(REG, prop, tier, seed, t0, reports, sanity, extra, props_mod):
             bounded.append(x)
         else:
             named.append(x)
+    # an obligation that was discharged on the baseline tree, whose function has since CHANGED, and on which the solver now
+    # gives up (unknown / timeout after the full attempt) is reported as failed -- without a failing input.  The same
+    # `unknown` on an unchanged function stays undecided (solver instability is not evidence about the code).
+    base = _load_baseline(prop)
+    cur_hash = {r["qualname"]: r["ast_hash"] for r in reports}
+    for o in named:
+        if o["status"] == "undecided" and str(o.get("reason", "")).startswith("unknown") and _stable_id(o["id"]) in base.get("discharged", ()):
+            fn = o.get("func")
+            old_h, new_h = base.get("functions", {}).get(fn), cur_hash.get(fn)
+            if old_h and new_h and old_h != new_h:
+                o["status"] = "refuted"
+                o["reason"] = (f"this obligation was discharged on the baseline tree (function hash {old_h}); the function has changed "
+                               f"(hash {new_h}) and the obligation is no longer provable -- solver: {o.get('reason')}")
     for o in named:
         if o["status"] == "refuted":
             refuted.append(o)
@@ -275,6 +303,12 @@ def finish(REG, prop, tier, seed, t0, reports, sanity, extra, props_mod):
         return 3
     if undecided:
         return 2
+    if os.environ.get("PYVC_WRITE_BASELINE") == "1":
+        os.makedirs(os.path.join(HERE, "contracts", "baseline"), exist_ok=True)
+        json.dump({"_comment": "obligations discharged on the tree these function hashes were taken from (written by PYVC_WRITE_BASELINE=1 ./check; never at check time)",
+                   "functions": {r["qualname"]: r["ast_hash"] for r in reports},
+                   "discharged": sorted({_stable_id(o["id"]) for o in named if o["status"] == "discharged"})},
+                  open(os.path.join(HERE, "contracts", "baseline", f"{prop}.json"), "w"), indent=1)
     return 0
 
 
